@@ -15,7 +15,7 @@
    the number of distinct configurations (which the real-time order keeps small), not by the
    number of interleavings. *)
 From Coq Require Import List ZArith Bool Lia.
-From Kit Require Export C14.LinSpec C14.LinModel Lib.CheckLib.
+From Kit Require Export C14.LinSpec C14.LinModel C14.SliceMemModel Lib.CheckLib.
 Export ListNotations.
 Open Scope Z_scope.
 
@@ -203,13 +203,17 @@ Definition seq_agrees {Sh Op} (code : Op -> prog Sh) (can : Sh -> Op -> bool) (s
 Inductive case :=
 | CMap (h : list (call map_op ret))
 | CAtomic (h : list (call at_op ret))
-| CSlice (h : list (call sl_op ret)).
+| CSlice (h : list (call sl_op ret))
+(* ownership clause (C14/SliceMemModel.v): a single goroutine's program on slice.Slice with the
+   caller's buffer discipline, and what was observed (results and buffer checks) *)
+| CSliceMem (prog : list mop) (obs : list mout).
 
 Definition oracle (c : case) : bool :=
   match c with
   | CMap h => map_lin_check h
   | CAtomic h => at_lin_check h
   | CSlice h => sl_lin_check h
+  | CSliceMem prog obs => own_oracle prog obs
   end.
 
 Definition well_formed (c : case) : bool :=
@@ -217,6 +221,7 @@ Definition well_formed (c : case) : bool :=
   | CMap h => wf_hist map_op h
   | CAtomic h => wf_hist at_op h
   | CSlice h => wf_hist sl_op h
+  | CSliceMem _ _ => true
   end.
 
 Definition model_agrees (c : case) : bool :=
@@ -227,10 +232,12 @@ Definition model_agrees (c : case) : bool :=
                  then seq_agrees at_code at_can_invoke at_s0 (fun _ => false) h else true
   | CSlice h => if sequential sl_op h
                 then seq_agrees sl_code (fun _ _ => true) sl_s0 (fun _ => false) h else true
+  | CSliceMem prog obs => mouts_eqb obs (mem_run false g_double prog)
   end.
 
 (* 0 = linearizable (and, when sequential, equal to the model's replay); 1 = malformed history
-   or sequential replay differs; 2 = the recorded history is NOT linearizable. *)
+   or sequential replay differs; 2 = the recorded history is NOT linearizable (CSliceMem: the
+   observations are not those of an ordinary slice that copies its arguments). *)
 Definition check_case (c : case) : Z :=
   if negb (well_formed c) then 1
   else if negb (oracle c) then 2
